@@ -24,10 +24,10 @@ Inductive dkind :=
 | KNew
 | KIndex (i : Z)
 | KField (k : string)
-| KMap (f : string)
-| KReduce (f : string)
-| KCall (f : string)
-| KParam (f p : string).
+| KMap (f : Z)                    (* the function DEFINITION event that was passed *)
+| KReduce (f : Z)
+| KCall (f : Z)
+| KParam (f : Z) (p : string).
 
 Record dnode := { dn_kind : dkind; dn_args : list dref }.
 
@@ -39,9 +39,9 @@ Inductive dty :=
 | TObj (comps : list (string * (dref * dty)))
 | TUnknown.
 
-Inductive dbind := BV (r : dref) (t : dty) | BF (name : string) (ret : dty).
+Inductive dbind := BV (r : dref) (t : dty) | BF (label : Z) (ret : dty).
 
-Record dfun := { df_name : string; df_params : list string; df_ret : dref }.
+Record dfun := { df_label : Z; df_name : string; df_params : list string; df_ret : dref }.
 
 Record dstate := { ds_next : Z; ds_nodes : list (Z * dnode); ds_funs : list dfun }.
 
@@ -63,7 +63,7 @@ Definition denv := list (string * dbind).
 
 Definition getv (ρ : denv) (x : string) : DM (dref * dty) :=
   match assoc x ρ with Some (BV r t) => dret (r, t) | _ => dfail end.
-Definition getf (ρ : denv) (x : string) : DM (string * dty) :=
+Definition getf (ρ : denv) (x : string) : DM (Z * dty) :=
   match assoc x ρ with Some (BF n r) => dret (n, r) | _ => dfail end.
 Fixpoint getvs (ρ : denv) (xs : list string) : DM (list (dref * dty)) :=
   match xs with
@@ -200,7 +200,10 @@ Definition drhs (ρ : denv) (r : rhs) : DM (dref * dty) :=
       ddo n <- node (KCall (fst g)) (map fst vs ++ map fst ks); dret (n, snd g)
   end.
 
-Fixpoint dparams (f : string) (ps : list (string * ity)) : DM denv :=
+Definition fresh_label : DM Z :=
+  fun s => Some (ds_next s, {| ds_next := ds_next s + 1; ds_nodes := ds_nodes s; ds_funs := ds_funs s |}).
+
+Fixpoint dparams (f : Z) (ps : list (string * ity)) : DM denv :=
   match ps with
   | [] => dret []
   | (x, t) :: r => ddo n <- node (KParam f x) []; ddo rest <- dparams f r; dret ((x, BV n (dty_of_ity t)) :: rest)
@@ -214,11 +217,12 @@ Fixpoint dexec (fuel : nat) (ρ : denv) (ss : list stmt) {struct fuel} : DM denv
       | [] => dret ρ
       | SLet x r :: rest => ddo v <- drhs ρ r; dexec n ((x, BV (fst v) (snd v)) :: ρ) rest
       | SDef f params rt body res :: rest =>
-          ddo pe <- dparams f params;
+          ddo lab <- fresh_label;
+          ddo pe <- dparams lab params;
           ddo ρ' <- dexec n (rev pe ++ ρ) body;
           ddo r <- getv ρ' res;
-          ddo _ <- add_fun {| df_name := f; df_params := map fst params; df_ret := fst r |};
-          dexec n ((f, BF f (dty_of_ity rt)) :: ρ) rest
+          ddo _ <- add_fun {| df_label := lab; df_name := f; df_params := map fst params; df_ret := fst r |};
+          dexec n ((f, BF lab (dty_of_ity rt)) :: ρ) rest
       end
   end.
 
@@ -260,33 +264,48 @@ Definition lit_string (b : base) (v : Z) : string :=
   | _ => NilZero.string_of_int (Z.to_int v)
   end.
 
-Definition fun_named (m : mir) (fid : Z) (name : string) : bool :=
-  match find_fun fid (m_functions m) with Some f => String.eqb (f_name f) name | None => false end.
+Definition lam_t := (list (Z * Z) * list (Z * Z))%type.     (* events -> operation ids, function definitions -> function ids *)
 
-Definition kind_matches (m : mir) (k : dkind) (nargs : nat) (o : mop) : bool :=
-  match k, o with
-  | KInput n, MInputRef n' => String.eqb n n'
-  | KRandom, MRandom => true
-  | KOp n, MBinary n' _ _ => String.eqb n n' && Nat.eqb nargs 2
-  | KOp n, MUnary n' _ => String.eqb n n' && Nat.eqb nargs 1
-  | KIfElse, MIfElse _ _ _ => true
-  | KNew, MNew es => Nat.eqb nargs (List.length es)
-  | KIndex i, MNTupleAcc i' _ => Z.eqb i i'
-  | KField k1, MObjectAcc k2 _ => String.eqb k1 k2
-  | KMap f, MMap fn _ => fun_named m fn f
-  | KReduce f, MReduce fn _ _ => fun_named m fn f
-  | KCall f, MCall fn args _ => fun_named m fn f && Nat.eqb nargs (List.length args)
-  | KParam f p, MArgRef fid p' => String.eqb p p' && fun_named m fid f
-  | _, _ => false
+(* bind the function definition [lab] to the MIR function [fid] (same name, injective) *)
+Definition bind_fun_label (m : mir) (d : denotation) (fl : list (Z * Z)) (lab fid : Z) : option (list (Z * Z)) :=
+  match zassoc lab fl with
+  | Some fid' => if Z.eqb fid fid' then Some fl else None
+  | None =>
+      if existsb (fun kv => Z.eqb (snd kv) fid) fl then None
+      else match find (fun df => Z.eqb (df_label df) lab) (d_funs d), find_fun fid (m_functions m) with
+           | Some df, Some mf => if String.eqb (df_name df) (f_name mf) then Some ((lab, fid) :: fl) else None
+           | _, _ => None
+           end
   end.
 
-(* match the event graph rooted at [r] against the MIR operation [id] of table [t];
-   [lam] is the event -> id map built so far (kept injective) *)
+(* kind of the MIR operation against the kind of the event; function-carrying kinds return the
+   updated function map *)
+Definition kind_matches (m : mir) (d : denotation) (fl : list (Z * Z)) (k : dkind) (nargs : nat) (o : mop)
+  : option (list (Z * Z)) :=
+  let ok (b : bool) := if b then Some fl else None in
+  match k, o with
+  | KInput n, MInputRef n' => ok (String.eqb n n')
+  | KRandom, MRandom => Some fl
+  | KOp n, MBinary n' _ _ => ok (String.eqb n n' && Nat.eqb nargs 2)
+  | KOp n, MUnary n' _ => ok (String.eqb n n' && Nat.eqb nargs 1)
+  | KIfElse, MIfElse _ _ _ => Some fl
+  | KNew, MNew es => ok (Nat.eqb nargs (List.length es))
+  | KIndex i, MNTupleAcc i' _ => ok (Z.eqb i i')
+  | KField k1, MObjectAcc k2 _ => ok (String.eqb k1 k2)
+  | KMap f, MMap fn _ => bind_fun_label m d fl f fn
+  | KReduce f, MReduce fn _ _ => bind_fun_label m d fl f fn
+  | KCall f, MCall fn args _ => if Nat.eqb nargs (List.length args) then bind_fun_label m d fl f fn else None
+  | KParam f p, MArgRef fid p' => if String.eqb p p' then bind_fun_label m d fl f fid else None
+  | _, _ => None
+  end.
+
+(* match the event graph rooted at [r] against the MIR operation [id] of table [t] *)
 Fixpoint match_ref (fuel : nat) (m : mir) (d : denotation) (t : list mentry)
-         (lam : list (Z * Z)) (r : dref) (id : Z) {struct fuel} : option (list (Z * Z)) :=
+         (lf : lam_t) (r : dref) (id : Z) {struct fuel} : option lam_t :=
   match fuel with
   | O => None
   | S n =>
+      let '(lam, fl) := lf in
       match find_entry id t with
       | None => None
       | Some e =>
@@ -296,32 +315,34 @@ Fixpoint match_ref (fuel : nat) (m : mir) (d : denotation) (t : list mentry)
               | MLiteralRef name =>
                   match find_literal name (m_literals m) with
                   | Some l => if String.eqb (l_value l) (lit_string b v)
-                                 && mty_eqb (l_ty l) (TyName (mir_name (MConst, b))) then Some lam else None
+                                 && mty_eqb (l_ty l) (TyName (mir_name (MConst, b))) then Some lf else None
                   | None => None
                   end
               | _ => None
               end
           | DN l =>
               match zassoc l lam with
-              | Some id' => if Z.eqb id id' then Some lam else None
+              | Some id' => if Z.eqb id id' then Some lf else None
               | None =>
                   if existsb (fun kv => Z.eqb (snd kv) id) lam then None      (* injectivity *)
                   else
                     match nassoc l (d_nodes d) with
                     | None => None
                     | Some nd =>
-                        if kind_matches m (dn_kind nd) (List.length (dn_args nd)) (e_op e) then
-                          (fix go (args : list dref) (ids : list Z) (lam : list (Z * Z)) : option (list (Z * Z)) :=
-                             match args, ids with
-                             | [], [] => Some lam
-                             | a :: args', i :: ids' =>
-                                 match match_ref n m d t lam a i with
-                                 | Some lam' => go args' ids' lam'
-                                 | None => None
-                                 end
-                             | _, _ => None
-                             end) (dn_args nd) (operands (e_op e)) ((l, id) :: lam)
-                        else None
+                        match kind_matches m d fl (dn_kind nd) (List.length (dn_args nd)) (e_op e) with
+                        | Some fl' =>
+                            (fix go (args : list dref) (ids : list Z) (lf : lam_t) : option lam_t :=
+                               match args, ids with
+                               | [], [] => Some lf
+                               | a :: args', i :: ids' =>
+                                   match match_ref n m d t lf a i with
+                                   | Some lf' => go args' ids' lf'
+                                   | None => None
+                                   end
+                               | _, _ => None
+                               end) (dn_args nd) (operands (e_op e)) ((l, id) :: lam, fl')
+                        | None => None
+                        end
                     end
               end
           end
@@ -338,37 +359,46 @@ Fixpoint list_eqb_str (a b : list string) : bool :=
 Definition match_fuel (m : mir) (d : denotation) : nat :=
   (4 * (List.length (d_nodes d) + List.length (all_tables m)) + 8)%nat.
 
+(* match the bodies of all bound functions; matching a body may bind further functions *)
+Fixpoint match_bodies (fuel : nat) (bfuel : nat) (m : mir) (d : denotation) (done : list Z) (lf : lam_t) : option lam_t :=
+  match fuel with
+  | O => None
+  | S n =>
+      match find (fun kv => negb (zmem (fst kv) done)) (snd lf) with
+      | None => Some lf
+      | Some (lab, fid) =>
+          match find (fun df => Z.eqb (df_label df) lab) (d_funs d), find_fun fid (m_functions m) with
+          | Some df, Some mf =>
+              if list_eqb_str (df_params df) (map a_name (f_args mf)) then
+                match match_ref bfuel m d (f_ops mf) lf (df_ret df) (f_ret mf) with
+                | Some lf' => match_bodies n bfuel m d (lab :: done) lf'
+                | None => None
+                end
+              else None
+          | _, _ => None
+          end
+      end
+  end.
+
 Definition faithfulb (p : program) (m : mir) : bool :=
   match denote p with
   | None => false
   | Some d =>
       let fuel := match_fuel m d in
-      (* outputs, in order, with one shared map *)
-      let step := fun (acc : option (list (Z * Z))) (ro : dref * moutput) =>
+      let step := fun (acc : option lam_t) (ro : dref * moutput) =>
                     match acc with
-                    | Some lam => match_ref fuel m d (m_ops m) lam (fst ro) (o_op (snd ro))
+                    | Some lf => match_ref fuel m d (m_ops m) lf (fst ro) (o_op (snd ro))
                     | None => None
                     end in
       if negb (Nat.eqb (List.length (d_outs d)) (List.length (m_outputs m))) then false
       else
-        match fold_left step (combine (d_outs d) (m_outputs m)) (Some []) with
+        match fold_left step (combine (d_outs d) (m_outputs m)) (Some ([], [])) with
         | None => false
-        | Some lam0 =>
-            (* every emitted function is a function the program defined, with the same parameters,
-               and its body is a faithful image too (same map) *)
-            match fold_left (fun (acc : option (list (Z * Z))) (mf : mfun) =>
-                               match acc with
-                               | None => None
-                               | Some lam =>
-                                   match find (fun df => String.eqb (df_name df) (f_name mf)) (d_funs d) with
-                                   | Some df =>
-                                       if list_eqb_str (df_params df) (map a_name (f_args mf))
-                                       then match_ref fuel m d (f_ops mf) lam (df_ret df) (f_ret mf)
-                                       else None
-                                   | None => None
-                                   end
-                               end) (m_functions m) (Some lam0) with
-            | Some _ => true
+        | Some lf0 =>
+            match match_bodies (S (List.length (d_funs d))) fuel m d [] lf0 with
+            | Some lf =>
+                (* every emitted function is one the program reaches *)
+                forallb (fun mf => existsb (fun kv => Z.eqb (snd kv) (f_id mf)) (snd lf)) (m_functions m)
             | None => false
             end
         end
